@@ -991,7 +991,8 @@ def _simplify_function_call(call: HplFunctionCall) -> HplExpression:
             if is_number_literal(arg1) and is_number_literal(arg2):
                 assert isinstance(arg1, HplLiteral)
                 assert isinstance(arg2, HplLiteral)
-                return HplLiteral.number(math.gcd(arg1.value, arg2.value))
+                if isinstance(arg1.value, int) and isinstance(arg2.value, int):
+                    return HplLiteral.number(math.gcd(arg1.value, arg2.value))
 
     return call
 
